@@ -455,6 +455,32 @@ def eval_bath(case):
             # (1+coth) J > 0 for w > 0; a vanishing C would make the clause vacuous
             viol.append(("ft-corfce/not-positive/%s" % origin,
                          "C(w) <= 0 at some w > 0", None))
+    # history on the same spectral-density object: the relation must hold for whatever
+    # temperature is requested, also when it differs from the temperature the object was built
+    # with, and when the object has been asked before (1st: T/2, 2nd: 1.5 T, 3rd: T again)
+    for idx, T2 in enumerate((0.5 * T, 1.5 * T, T)):
+        try:
+            ft2 = sd.get_FTCorrelationFunction(temperature=T2)
+        except Exception as e:
+            viol.append(("ft-corfce/other-temperature/raises-%s/%s" % (type(e).__name__, origin),
+                         "get_FTCorrelationFunction(temperature=%g) raised: %s"
+                         % (T2, str(e)[:80]), None))
+            break
+        C2 = numpy.real(numpy.array(ft2.data))
+        Ci2, Ck2 = C2[ii][sel], C2[kk][sel]
+        if nz:
+            x2 = wi / GR.kBT(T2)
+            B2 = numpy.exp(-x2)
+            tol2 = (RTOL + GR.UNIT_RTOL * (1.0 + x2) * B2) * numpy.abs(Ci2) + 1.0e-300
+            r2 = float(numpy.max(numpy.abs(Ck2 - B2 * Ci2) / tol2))
+            worst("ftc.db.otherT/tol[%s]" % origin, r2)
+            if not r2 <= 1.0:
+                viol.append(("ft-corfce/detailed-balance/requested-temperature-%d/%s"
+                             % (idx, origin),
+                             "request #%d with temperature=%g K on an object built at %g K: "
+                             "C(-w) = exp(-w/kT) C(w) violated by %g x tolerance"
+                             % (idx, T2, T, r2), None))
+                break
     outcome = [origin, kind, a1, a2, float("%.4g" % jscale),
                float("%.4g" % float(numpy.max(numpy.abs(Cw))))]
     return {"nontrivial": bool(nz > 0), "outcome": outcome, "violations": _first(viol),
